@@ -128,6 +128,75 @@ def surface_items(ctx):
     return items, overloads
 
 
+DIST_FLOATS = [0.0, 1.0, -1.0, 0.5, 2.5, 1e-300, 1e300, -1e300, 5e-324, 1.7976931348623157e308, -1.7976931348623157e308]
+DIST_INTS = [0, 1, 2, -1, 10, 1000, 2 ** 31, 2 ** 63 - 1, -(2 ** 63), 2 ** 70]
+DIST_PROBES = {"float": ["0.0", "0.5", "1.0", "(-1.0)", "1e300", "(-1e300)", "5e-324", "1.7976931348623157e308"], "int": ["0", "1", "(-1)", "3", "9223372036854775807", "1180591620717411303424"]}
+
+
+def dist_items(ctx, overloads):
+    """every distribution constructor at every combination of extreme parameters; the ones that construct are handed
+    to every function that consumes a distribution: the constructors validate what statrs validates, but sampling,
+    quantiles and the moments go through further arithmetic (widths, scales, counters) that the constructor did
+    not look at"""
+    import itertools, random
+    rng = random.Random(f"{ctx.seed}-extremes")      # its own stream: the other families keep theirs
+    ctors = [o for o in overloads if repr(o.ret) in ("ContinuousDistribution", "DiscreteDistribution") and all(repr(p) in ("float", "int") for p in o.params)]
+    users = [o for o in overloads if o.params and repr(o.params[0]) in ("ContinuousDistribution", "DiscreteDistribution") and all(repr(p) in ("float", "int") for p in o.params[1:])]
+    cands = []
+    for c in ctors:
+        arities = {len(c.params)} | {k for k in range(len(c.params)) if c.optional[k]}
+        for ar in sorted(arities):
+            pools = [[surface.flit(x) for x in DIST_FLOATS] if repr(p) == "float" else [surface.ilit(x) for x in DIST_INTS] for p in c.params[:ar]]
+            for combo in itertools.product(*pools):
+                cands.append({"expr": f"{c.name}({', '.join(combo)})", "op": f"{c.name}{c.sig}", "fam": "dist_ctor", "ret": repr(c.ret)})
+    outs, _ = batch.run_items(ctx, cands, per_program=60, dump={"per": 4, "nodes": 8}, name="C01_dist_ctor", timeout_ms=20000)
+    built = [c for c, o in zip(cands, outs) if o["kind"] == "value"]
+    items = []
+    for c in built:
+        for u in users:
+            if repr(u.params[0]) != c["ret"]:
+                continue
+            rest = [["0", "3"]] if u.name == "sample" else [DIST_PROBES[repr(p)] for p in u.params[1:]]
+            for tail in itertools.product(*rest):
+                items.append({"expr": f"{u.name}({', '.join((c['expr'],) + tail)})", "op": f"{u.name}{u.sig}", "fam": "dist_extremes"})
+    total = len(items)
+    keep = ctx.pick(1200, 30000)
+    if len(items) > keep:
+        items = rng.sample(items, keep)
+    return items, {"constructors": len(ctors), "parameter_combinations": len(cands), "constructed": len(built), "consumers": len(users), "uses_possible": total, "uses_run": len(items)}
+
+
+PRIM_POOLS = {
+    "int": [0, 1, -1, 2, 7, -100, 1 << 31, (1 << 63) - 1, 1 << 63, -(1 << 63), 1 << 64, 10 ** 30],
+    "float": DIST_FLOATS,
+    "str": ["", "a", "abc", "\u00e9\U0001F600", " ", "-1", "1e5", "{}", "%d", "\n", "(a*)*b", "[1, 2"],
+    "bool": [True, False],
+}
+PRIM_LIMITS = {"search": 1000, "size": 4000000, "ud_call": 1000, "recursion": 100, "depth": 60}
+
+
+def prim_items(ctx, overloads):
+    """every overload whose parameters are all primitive, at the full product of the extreme values of each type
+    (sampled per overload when the product is large): what the type-directed generator only meets by chance"""
+    import itertools, random
+    rng = random.Random(f"{ctx.seed}-extremes")      # its own stream: the other families keep theirs
+    lit = {"int": surface.ilit, "float": surface.flit, "str": surface.slit, "bool": lambda b: "true" if b else "false"}
+    sel = [o for o in overloads if o.params and all(repr(p) in PRIM_POOLS for p in o.params) and not o.name.startswith("__") and o.name not in ("sleep", "assert")]
+    cap = ctx.pick(8, 300)
+    items, possible = [], 0
+    for o in sel:
+        arities = {len(o.params)} | {k for k in range(1, len(o.params)) if o.optional[k]}
+        for ar in sorted(arities):
+            pools = [[lit[repr(p)](x) for x in PRIM_POOLS[repr(p)]] for p in o.params[:ar]]
+            combos = list(itertools.product(*pools))
+            possible += len(combos)
+            if len(combos) > cap:
+                combos = rng.sample(combos, cap)
+            for combo in combos:
+                items.append({"expr": f"{o.name}({', '.join(combo)})", "op": f"{o.name}{o.sig}", "fam": "prim_extremes"})
+    return items, {"overloads": len(sel), "combinations_possible": possible, "combinations_run": len(items)}
+
+
 def scan(obs_binding_or_call, where):
     out = []
     b = obs_binding_or_call
@@ -151,10 +220,14 @@ def run(ctx):
     by_lim = {}
     for it in items:
         by_lim.setdefault(rng.randrange(len(limits_pool)), []).append(it)
-    for li, its in by_lim.items():
+    dist, dist_stats = dist_items(ctx, overloads)
+    prim, prim_stats = prim_items(ctx, overloads)
+    limits_pool.append(PRIM_LIMITS)
+    groups = [(li, its, 20000) for li, its in by_lim.items()] + [(0, dist, 6000), (len(limits_pool) - 1, prim, 20000)]
+    for li, its, budget in groups:
         extra = {"limits": limits_pool[li]} if limits_pool[li] else {}
         extra["perms"] = {"regex": True}
-        outs, cases = batch.run_items(ctx, its, per_program=12, case_extra=extra, dump={"per": 24, "nodes": 800}, name=f"C01_surface{li}")
+        outs, cases = batch.run_items(ctx, its, per_program=12, case_extra=extra, dump={"per": 24, "nodes": 800}, name=f"C01_surface{li}", timeout_ms=budget)
         for it, out, case in zip(its, outs, cases):
             total += 1
             k = out["kind"]
@@ -271,7 +344,7 @@ def run(ctx):
                    "(every binding and every zero-argument function); distinct = distinct texts", "samples": samples,
            "accepted_and_executed": executed, "rejected_by_compiler": rejected, "values_monitored": values, "values_shape_checked": shapes,
            "overloads_in_table": len(overloads), "distinct_overloads_reached": len(reached), "outcome_kinds_surface": tags, "distinct_panic_sites": panic_sites,
-           "acceptance_by_family": {k: f"{a}/{n}" for k, (a, n) in fam_acc.items()}, "near_miss_programs": len(NEAR_MISS)}
+           "acceptance_by_family": {k: f"{a}/{n}" for k, (a, n) in fam_acc.items()}, "near_miss_programs": len(NEAR_MISS), "distribution_extremes": dist_stats, "primitive_extremes": prim_stats}
     return {"coverage": cov, "broken": None if executed > 300 and values > 300 else "too few accepted programs executed",
             "assumptions": ["native stack exhaustion without a configured depth limit is host responsibility (generated recursion is shallow)",
                             "elements beyond 24 per container are not forced", "a timeout without any configured limit is not counted (C10 covers limits)",
